@@ -92,8 +92,13 @@ Definition list_readSize (p : Ptr) : Z :=
 
 (* ------------------------------------------------------------------ segment.go *)
 
-(* resolveFarPointer: (destination segment id, base, resolved pointer word) *)
-Definition resolveFarPointer (m : segs) (sid : Z) (s : seg) (paddr : Z) : res (Z * seg * Z * Z) :=
+(* resolveFarPointer: (destination segment id, base, resolved pointer word).
+   [strict]: the repaired code does not hand a synthesised word 0 (double-far landing pad
+   describing a zero-sized struct at word 0 of the target segment) to readPtr, where it would
+   be taken for the null pointer, but its equivalent non-zero encoding: base 8, struct pointer
+   with offset -1 and empty sections (as found: the word 0 is returned; see
+   Spec/SpecExamples.dfar_zero_struct_refuted). *)
+Definition resolveFarPointer (strict : bool) (m : segs) (sid : Z) (s : seg) (paddr : Z) : res (Z * seg * Z * Z) :=
   do val <- readRawPointer s paddr;
   let pt := pointerType val in
   if pt =? doubleFarPointer then
@@ -111,7 +116,13 @@ Definition resolveFarPointer (m : segs) (sid : Z) (s : seg) (paddr : Z) : res (Z
       if (negb (tpt =? structPointer) && negb (tpt =? listPointer)) || negb (ptr_offset tag =? 0) then Err else
       let dsid := farSegment far in
       do dst <- (if dsid =? sid then Ok s else lookup_segment m dsid);
-      Ok (dsid, dst, 0, landingPadNearPointer far tag)
+      let near := landingPadNearPointer far tag in
+      if strict && (near =? 0)
+      then match rawStructPointer (-1) (mkOS 0 0) with
+           | Some v => Ok (dsid, dst, wordSize, v)
+           | None => Panic
+           end
+      else Ok (dsid, dst, 0, near)
     end
   else if pt =? farPointer then
     let dsid := farSegment val in
@@ -179,7 +190,7 @@ Definition readListPtr (strict_tag : bool) (sid : Z) (s : seg) (base val : Z) : 
 (* Segment.readPtr; the read limit is threaded through *)
 Definition readPtr (strict_tag : bool) (m : segs) (rl : Z) (sid : Z) (s : seg) (paddr depth : Z)
   : res Ptr * Z :=
-  match resolveFarPointer m sid s paddr with
+  match resolveFarPointer strict_tag m sid s paddr with
   | Err => (Err, rl)
   | Panic => (Panic, rl)
   | Ok (dsid, dst, base, val) =>
